@@ -27,7 +27,7 @@ impl Property for C05 {
         let case = match case {
             HCase::Seq(h) => h,
             HCase::Multi(m) => return run_multi(m, ctx, "C05", &[">=3-results-queued", ">=3-results-in-one-poll"]),
-            HCase::Drop(_) => return,
+            HCase::Drop(_) | HCase::Composite(_) => return,
         };
         let oracles = Oracles { c05: true, ..Oracles::default() };
         let feats = interp::execute(case, oracles, ctx);
